@@ -284,13 +284,17 @@ var injectMalformations = func(rng *rand.Rand, doc [][]string) [][]string { retu
 
 // replayFile re-runs a stored violation.
 func replayFile(r *evid.Run, path string) int {
-	fmt.Println("replay of", path, "- re-run the check for property", r.ID, "; stored input follows")
 	b, err := readFile(path)
 	if err != nil {
 		fmt.Println(err)
 		return 2
 	}
-	fmt.Println(string(b))
+	var hdr struct {
+		Sig  string `json:"sig"`
+		What string `json:"what"`
+	}
+	json.Unmarshal(b, &hdr)
+	fmt.Printf("replay of %s (property %s)\n  stored signature: %s\n  stored observation: %s\n", path, r.ID, hdr.Sig, hdr.What)
 	var rp struct {
 		Replay docReplay `json:"replay"`
 	}
@@ -310,5 +314,15 @@ func replayFile(r *evid.Run, path string) int {
 			return 1
 		}
 	}
+	if rp.Replay.Bytes != "" {
+		return 0
+	}
+	// not a single-document replay: re-run the check and see whether the same signature comes back
+	r.OnlySig = hdr.Sig
+	checks[r.ID](r)
+	if r.Violations() > 0 {
+		return 1
+	}
+	fmt.Println("the stored violation does not reproduce on the current tree")
 	return 0
 }
